@@ -120,3 +120,20 @@ func VH_C04_C19_BundleWriteFaults() {
 		vh.Reach("control")
 	}
 }
+
+// VH_C04_Destinations: Bundle.WriteTo of the same b1/b2 bundle into a destination WITHOUT io.ReaderFrom (vh.Sink) and
+// one WITH it (bytes.Buffer): identical bytes, and each returned count equals the bytes that destination received.
+func VH_C04_Destinations() {
+	b := &Bundle{Version: "b2", PrimaryURL: c03MustURL("https://a/")}
+	if vh.Choose(2) == 1 {
+		b.Version = "b1"
+	}
+	b.Exchanges = []*Exchange{c03Exchange(0, "https://a/"), c03Exchange(1, "https://b/")}
+	var sink vh.Sink
+	var buf bytes.Buffer
+	n1, e1 := b.WriteTo(&sink)
+	n2, e2 := b.WriteTo(&buf)
+	vh.Assert(e1 == nil && e2 == nil, "both destinations are written")
+	vh.Assert(n1 == int64(len(sink.B)) && n2 == int64(buf.Len()), "returned count equals the bytes handed to the destination")
+	vh.Assert(bytes.Equal(sink.B, buf.Bytes()), "same bytes whatever the destination type")
+}
